@@ -266,8 +266,8 @@ def run(ctx):
     for suffix in ("", "_market"):
         b = ctx.prog.free_fn("bourse_de", "place_buy_limit_order" + suffix)
         s = ctx.prog.free_fn("bourse_de", "place_sell_limit_order" + suffix)
-        db = [c.name for c in m.q(b).calls() if (c.term.j.get("callee_crate") or "").startswith("rand")]
-        ds = [c.name for c in m.q(s).calls() if (c.term.j.get("callee_crate") or "").startswith("rand")]
+        db = [c.name for c in m.qi(b).calls() if (c.term.j.get("callee_crate") or "").startswith("rand")]
+        ds = [c.name for c in m.qi(s).calls() if (c.term.j.get("callee_crate") or "").startswith("rand")]
         ctx.check(db == ds and len(db) == 1, "mirror", "helpers" + suffix, ctx.loc(s), "buy and sell helpers consume the same draws (%s)" % db, "buy helper draws %s, sell helper draws %s" % (db, ds))
     ctx.assume("documented parameters positive: demand, scale, order_ratio, n (agent count), decay in (0, 1]")
 
